@@ -40,6 +40,9 @@ type FS struct {
 	// enumerate crash points).
 	LogOps bool
 	Log    []OpRec
+	// Removed records every successful Remove (always on: harnesses use it
+	// to attribute a vanished file to the process that removed it).
+	Removed []OpRec
 }
 
 // OpRec describes one executed file system operation.
@@ -398,6 +401,7 @@ func Remove(name string) error {
 		return perr("remove", name, syscall.ENOTEMPTY)
 	}
 	delete(d.children, base)
+	f.Removed = append(f.Removed, OpRec{Proc: verifsim.CurProc(), Kind: "remove", Path: filepath.Clean(name)})
 	return nil
 }
 
